@@ -15,7 +15,9 @@ package main
 //@   ensures[a-250th-of-the-range-in-whole-seconds] ret0 == time.Duration(ite(int64(end.Sub(start)/time.Second)/250 < 1, 1, int64(end.Sub(start)/time.Second)/250)) * time.Second
 
 //@ func parseDuration
+//@   capture pf = call(strconv.ParseFloat, 0)
 //@   ensures[positive] ret1 == nil ==> ret0 > 0
+//@   ensures[plain-seconds-to-the-nearest-nanosecond] pf_called && pf_r1 == nil && ret1 == nil ==> ret0 == time.Duration(math.Round(pf_r0 * float64(time.Second)))
 
 //@ func parseStep
 //@   ensures[positive] ret1 == nil ==> ret0 > 0
@@ -28,6 +30,9 @@ package main
 //@   pure
 //@   loop 0 invariant 0 <= i && i <= len(s)
 
+//@ spec func nineDigits(frac string) string {
+//@   return ite(len(frac) > 9, frac[:9], frac)
+//@ }
 //@ func parseTimestamp
 //@   capture ct = call(strings.Cut, 0)
 //@   capture ps = call(strconv.ParseInt, 0)
@@ -36,11 +41,11 @@ package main
 //@   capture tp = call(time.Parse, 0)
 //@   ensures[default] lt == "" ==> ret1 == nil && ret0 == def
 //@   ensures[decimal-seconds-keep-every-digit-of-the-fraction] ps_called && pn_called && ps_r1 == nil && pn_r1 == nil ==> ret1 == nil && ret0 == time.Unix(ps_r0, pn_r0)
-//@   ensures[fraction-is-read-as-nanoseconds] pn_called ==> ct_called && ct_a0 == string(lt) && ct_a1 == "." && ps_a0 == ct_r0 && len(ct_r1) <= 9 && pn_a0 == ct_r1 + strings.Repeat("0", 9-len(ct_r1)) && pn_a1 == 10 && ps_a1 == 10
-//@   ensures[digits-dot-digits-takes-the-exact-path] lt != "" && ct_r2 && isDigits(ct_r0) && isDigits(ct_r1) && len(ct_r1) <= 9 ==> ps_called && pn_called
+//@   ensures[fraction-is-read-as-nanoseconds] pn_called ==> ct_called && ct_a0 == string(lt) && ct_a1 == "." && ps_a0 == ct_r0 && pn_a0 == nineDigits(ct_r1) + strings.Repeat("0", 9-len(nineDigits(ct_r1))) && pn_a1 == 10 && ps_a1 == 10
+//@   ensures[digits-dot-digits-takes-the-exact-path] lt != "" && ct_r2 && isDigits(ct_r0) && isDigits(ct_r1) ==> ps_called && pn_called
 //@   ensures[number-read-from-the-whole-text] pi_called ==> pi_a0 == string(lt) && pi_a1 == 10 && pi_a2 == 64
-//@   ensures[up-to-ten-digits-are-seconds] pi_called && pi_r1 == nil && len(lt) <= 10 ==> ret1 == nil && ret0 == time.Unix(pi_r0, 0)
-//@   ensures[longer-numbers-are-nanoseconds] pi_called && pi_r1 == nil && len(lt) > 10 ==> ret1 == nil && ret0 == time.Unix(0, pi_r0)
+//@   ensures[numbers-of-up-to-ten-digits-are-seconds-whatever-their-spelling] pi_called && pi_r1 == nil && -999999999 <= pi_r0 && pi_r0 <= 9999999999 ==> ret1 == nil && ret0 == time.Unix(pi_r0, 0)
+//@   ensures[longer-numbers-are-nanoseconds] pi_called && pi_r1 == nil && !(-999999999 <= pi_r0 && pi_r0 <= 9999999999) ==> ret1 == nil && ret0 == time.Unix(0, pi_r0)
 //@   ensures[anything-else-is-RFC3339] pi_called && pi_r1 != nil ==> tp_called && tp_a0 == time.RFC3339Nano && tp_a1 == string(lt) && ret0 == tp_r0 && ret1 == tp_r1
 //@   ensures[no-silent-default] lt != "" && ret1 == nil ==> (pi_called && pi_r1 == nil) || (tp_called && tp_r1 == nil) || strings.Contains(string(lt), ".") || (ct_called && ct_r2)
 
